@@ -1,12 +1,12 @@
 #!/bin/sh
 # Run one triage witness against /repo's current tree in a scratch dir outside /repo and /verif.
-# usage: triage/run.sh w2 [args...]
+# usage: [ERGO_REPO=/path/to/tree] triage/run.sh w2 [args...]
 set -e
 w="$1"; shift
 d=$(mktemp -d /tmp/witness.XXXXXX)
 trap 'rm -rf "$d"' EXIT
 cp "$(dirname "$0")/$w/main.go" "$d/main.go"
-cp "$(dirname "$0")/go.mod.tmpl" "$d/go.mod"
-cp /repo/go.sum "$d/go.sum" 2>/dev/null || true
+sed "s#=> /repo#=> ${ERGO_REPO:-/repo}#" "$(dirname "$0")/go.mod.tmpl" > "$d/go.mod"
+cp "${ERGO_REPO:-/repo}/go.sum" "$d/go.sum" 2>/dev/null || true
 cd "$d"
 GOFLAGS=-mod=mod GOPROXY=off GOSUMDB=off GOTOOLCHAIN=local GOWORK=off go run . "$@"
